@@ -74,9 +74,9 @@ def oracle(case):
         fails.append(("requested_duty", f"condenser duty {Qc}, requested {case['Q']}", None))
     if abs(hp.COP_h - (hp.COP_r + 1.0)) > 1e-9 * max(1.0, hp.COP_h):
         fails.append(("cop_relation", f"COP_h {hp.COP_h} vs COP_r + 1 = {hp.COP_r + 1.0}", None))
-    if S[1] < S[0] - 1e-6:
+    if S[1] < S[0] - (1e-4 + 1e-8 * abs(S[0])):          # CoolProp's (p, s) -> h -> (h, p) round trip at eta = 1
         fails.append(("compression_entropy", f"s1 {S[1]} < s0 {S[0]}", None))
-    if S[3] < S[2] - 1e-6:
+    if S[3] < S[2] - (1e-4 + 1e-8 * abs(S[2])):
         fails.append(("throttling_entropy", f"s3 {S[3]} < s2 {S[2]}", None))
     if abs(H[3] - H[2]) > 1e-6 * max(1.0, abs(H[2])):
         fails.append(("throttling_isenthalpic", f"h3 {H[3]} vs h2 {H[2]}", None))
@@ -95,11 +95,13 @@ def oracle(case):
         return fails, hp
     tot_c = sum(q for *_, q in cond); tot_e = sum(q for *_, q in evap)
     # the throttled fluid is already at / above the evaporator outlet enthalpy: nothing evaporates (q_evap clipped to 0)
-    no_evap = "throttle_outlet_not_below_evaporator_outlet" if H[3] >= H[0] - 1e-9 else None
+    no_evap = "throttle_outlet_not_below_evaporator_outlet" if H[3] >= H[0] - 1e-6 * abs(H[0]) else None
     if cond and abs(tot_c - Qc) > 1e-6 * max(1.0, Qc):
         fails.append(("condenser_streams_carry_duty", f"hot streams carry {tot_c}, condenser duty {Qc} (order {case['order']})", None))
     if evap and abs(tot_e - Qe) > 1e-6 * max(1.0, Qe):
         fails.append(("evaporator_streams_carry_duty", f"cold streams carry {tot_e}, evaporator duty {Qe} (order {case['order']})", no_evap))
+    if any(not math.isfinite(q) for *_, q in cond + evap):
+        fails.append(("stream_duties_finite", f"non-finite stream duty in {[(n, q) for n, *_, q in cond + evap if not math.isfinite(q)][:3]}", no_evap))
     for n, a, b, q in cond:
         if not b < a:
             fails.append(("hot_streams_cool", f"{n}: {a} -> {b}", None))
@@ -112,7 +114,7 @@ def oracle(case):
     for (x, y) in zip(evap, evap[1:]):
         if y[1] < x[2] - 0.011:
             fails.append(("cold_profile_monotone", f"{y[0]} starts at {y[1]} below the end of {x[0]} at {x[2]}", no_evap)); break
-    same = lambda p, q: len(p) == len(q) and all(a[0] == b[0] and abs(a[1] - b[1]) < 1e-9 and abs(a[2] - b[2]) < 1e-9 and abs(a[3] - b[3]) <= 1e-9 * max(1.0, abs(b[3])) for a, b in zip(p, q))
+    same = lambda p, q: len(p) == len(q) and all(a[0] == b[0] and abs(a[1] - b[1]) < 1e-9 and abs(a[2] - b[2]) < 1e-9 and (abs(a[3] - b[3]) <= 1e-9 * max(1.0, abs(b[3])) or (a[3] != a[3] and b[3] != b[3])) for a, b in zip(p, q))
     if cond and not same(cond, ref_c):
         fails.append(("order_independent", f"condenser streams after requests '{case['order']}' differ from a lone request: {cond[:2]} vs {ref_c[:2]}", None))
     if evap and not same(evap, ref_e):
